@@ -82,6 +82,14 @@ void ezc3d::c3d::write(const std::string& filePath) const
     // Write the parameters
     this->parameters().write(f);
 
+    // The header announces the block where the data start (word 9, 1-based like POINT:DATA_START);
+    // that block is only known now that the parameters are written
+    std::streampos dataPosition(f.tellg());
+    int dataStartBlock(static_cast<int>(dataPosition) / 512 + 1);
+    f.seekg(16);
+    f.write(reinterpret_cast<const char*>(&dataStartBlock), 1*ezc3d::DATA_TYPE::WORD);
+    f.seekg(dataPosition);
+
     // Write the data
     this->data().write(f);
 
